@@ -9,7 +9,7 @@ from .. import gen_syntax, lib, printer, shrink as shr
 from ..decode import DecodeError, decode
 from ..printer import PREC, FullStyle, RandomStyle, Style
 from ..runner import digest, hyp_run
-from ..terms import children, from_json, to_json, walk
+from ..terms import children, from_json, to_json, walk, wellformed
 
 PROPERTY_ID = "C05"
 RULE = ("exhaustive: every tree with exactly 1..3 (thorough: ..4, plus operators inside `in` "
@@ -95,6 +95,8 @@ def shrink(case, bucket):
     t = from_json(case["term"])
 
     def still(c):
+        if not wellformed(c):
+            return False
         r = check_case(dict(case, term=to_json(c)))
         return bool(r) and r[0] == bucket
 
